@@ -49,23 +49,110 @@ func (t *txScript) loopOfElem(base ssa.Value) *postingLoop {
 }
 
 // fieldDesc: the posting field (and the loop it belongs to) a value reads: p.Source, p.Asset,
-// p.Amount.String(), …
-func (t *txScript) fieldDesc(v ssa.Value) (string, *postingLoop) {
+// p.Amount.String(), … The value may live in a helper or closure (bind): its parameters stand for the caller's
+// arguments.
+func (t *txScript) fieldDesc(v ssa.Value, bind *callBind) (string, *postingLoop) {
 	v = stripStringConv(v)
+	if bind != nil {
+		if w, nb := bind.resolve(v); w != v {
+			return t.fieldDesc(w, nb)
+		}
+	}
+	elemOf := func(base ssa.Value) *postingLoop {
+		if l := t.loopOfElem(base); l != nil {
+			return l
+		}
+		if bind != nil {
+			// the base is the helper's copy of a parameter: the caller passed the posting of its loop
+			w, _ := bind.resolve(base)
+			if u, ok := w.(*ssa.UnOp); ok && u.Op == token.MUL {
+				return t.loopOfElem(u.X)
+			}
+			return t.loopOfElem(w)
+		}
+		return nil
+	}
 	if call, ok := v.(*ssa.Call); ok && calleeFullName(call) == "(*math/big.Int).String" {
 		if f, base := anyFieldRead(call.Call.Args[0]); f != nil {
-			if l := t.loopOfElem(base); l != nil && sameField(f, t.fAmount) {
+			if l := elemOf(base); l != nil && sameField(f, t.fAmount) {
 				return "Amount.String()", l
 			}
 		}
 		return "", nil
 	}
 	if f, base := anyFieldRead(v); f != nil {
-		if l := t.loopOfElem(base); l != nil {
+		if l := elemOf(base); l != nil {
 			return f.Name(), l
 		}
 	}
+	if fl, ok := v.(*ssa.Field); ok {
+		if l := elemOf(fl.X); l != nil {
+			return fieldOfField(fl).Name(), l
+		}
+	}
 	return "", nil
+}
+
+// mapRoot: the identity of a variable map: the map value itself, or the cell it lives in when closures capture it
+// (also seen from inside such a closure).
+func (t *txScript) mapRoot(v ssa.Value) ssa.Value {
+	u, ok := v.(*ssa.UnOp)
+	if !ok || u.Op != token.MUL {
+		return v
+	}
+	switch x := u.X.(type) {
+	case *ssa.Alloc:
+		return x
+	case *ssa.FreeVar:
+		lit := x.Parent()
+		for i, f := range lit.FreeVars {
+			if f != x || lit.Parent() == nil {
+				continue
+			}
+			for _, b := range lit.Parent().Blocks {
+				for _, ins := range b.Instrs {
+					if mc, ok := ins.(*ssa.MakeClosure); ok && mc.Fn == ssa.Value(lit) && i < len(mc.Bindings) {
+						return mc.Bindings[i]
+					}
+				}
+			}
+		}
+	}
+	return v
+}
+
+// writeParts: the text a call writes into the script: sb.WriteString(x), or fmt.Fprintf(&sb, format, args…).
+func (t *txScript) writeParts(call *ssa.Call) ([][]sPart, bool) {
+	name := calleeFullName(call)
+	if strings.HasPrefix(name, "(*strings.Builder).Write") && len(call.Call.Args) > 1 {
+		return strParts(call.Call.Args[1]), true
+	}
+	if (name == "fmt.Fprintf" || name == "fmt.Fprint") && len(call.Call.Args) >= 2 {
+		w := call.Call.Args[0]
+		if mi, ok := w.(*ssa.MakeInterface); ok {
+			w = mi.X
+		}
+		if p, ok := w.Type().(*types.Pointer); !ok || !isNamed(p.Elem(), "strings", "Builder") {
+			return nil, false
+		}
+		if name == "fmt.Fprint" {
+			var out [][]sPart = [][]sPart{{}}
+			for _, a := range orderedVariadic(call.Call.Args[1]) {
+				out = crossParts(out, strParts(a))
+			}
+			return out, true
+		}
+		format, ok := constString(call.Call.Args[1])
+		if !ok {
+			return nil, true
+		}
+		var args []ssa.Value
+		if len(call.Call.Args) > 2 {
+			args = orderedVariadic(call.Call.Args[2])
+		}
+		return formatParts(format, args, map[ssa.Value]bool{}, 0, nil, call), true
+	}
+	return nil, false
 }
 
 // memoRead: v reads S[idx] where S is a local slice filled element-wise inside posting loops at their own
@@ -126,6 +213,10 @@ func (t *txScript) memoRead(v ssa.Value) (stored []ssa.Value, writers []*posting
 // keyCanon: the canonical form of a map key relative to a loop: literals quoted, posting fields by name.
 // ok=false when a dynamic piece is not a field of the posting of that loop.
 func (t *txScript) keyCanon(v ssa.Value, loop *postingLoop, depth int) (canon []string, kinds []string, ok bool) {
+	return t.keyCanonB(v, loop, depth, nil)
+}
+
+func (t *txScript) keyCanonB(v ssa.Value, loop *postingLoop, depth int, bind *callBind) (canon []string, kinds []string, ok bool) {
 	if depth > 4 {
 		return nil, nil, false
 	}
@@ -149,7 +240,7 @@ func (t *txScript) keyCanon(v ssa.Value, loop *postingLoop, depth int) (canon []
 		}
 		return first, firstK, true
 	}
-	variants := strParts(v)
+	variants := strPartsBound(v, bind)
 	if len(variants) != 1 {
 		return nil, nil, false
 	}
@@ -168,7 +259,7 @@ func (t *txScript) keyCanon(v ssa.Value, loop *postingLoop, depth int) (canon []
 			kinds = append(kinds, ks...)
 			continue
 		}
-		d, l := t.fieldDesc(p.dyn)
+		d, l := t.fieldDesc(p.dyn, p.bind)
 		if d == "" || l != loop {
 			return nil, nil, false
 		}
@@ -297,6 +388,8 @@ func runTxScriptRules(c *Ctx, fn *ssa.Function, nameF, valueF, postingsF *types.
 				}
 			}
 			return true
+		case *ssa.MakeSlice:
+			return true
 		case *ssa.Call:
 			if bi, ok := x.Call.Value.(*ssa.Builtin); ok && bi.Name() == "append" {
 				if !cleanSliceGuard(nil, x.Call.Args[0], cleanSlice, depth) {
@@ -307,25 +400,55 @@ func runTxScriptRules(c *Ctx, fn *ssa.Function, nameF, valueF, postingsF *types.
 				}
 				return true
 			}
+			// a helper of the repository that returns a slice: every returned slice must be clean
+			// (`sortedVariableNames(m)` collecting v.name)
+			if callee := x.Call.StaticCallee(); callee != nil && callee.Pkg != nil && inRepo(callee.Pkg.Pkg.Path()) && len(callee.Blocks) > 0 {
+				n := 0
+				for _, b := range callee.Blocks {
+					if r, ok := b.Instrs[len(b.Instrs)-1].(*ssa.Return); ok && len(r.Results) == 1 {
+						n++
+						if !cleanSlice(r.Results[0], depth+1) {
+							return false
+						}
+					}
+				}
+				return n > 0
+			}
 		}
 		return false
 	}
 	nWrites := 0
 	labels := map[string]int{}
+	cleanParts := func(vs [][]sPart) bool {
+		if vs == nil {
+			return false
+		}
+		for _, parts := range vs {
+			for _, p := range parts {
+				if !p.isLit() && !cleanLeaf(p.dyn, 1) {
+					return false
+				}
+			}
+		}
+		return true
+	}
 	for _, b := range fn.Blocks {
 		for _, ins := range b.Instrs {
 			call, ok := ins.(*ssa.Call)
-			if !ok || !strings.HasPrefix(calleeFullName(call), "(*strings.Builder).Write") {
+			if !ok {
+				continue
+			}
+			wp, isWrite := t.writeParts(call)
+			if !isWrite {
 				continue
 			}
 			nWrites++
-			arg := call.Call.Args[1]
-			label := "write:" + writeLabel(arg)
+			label := "write:" + partsLabel(wp)
 			labels[label]++
 			if labels[label] > 1 {
 				label = fmt.Sprintf("%s#%d", label, labels[label])
 			}
-			if cleanText(arg, 0) {
+			if cleanParts(wp) {
 				c.ok("R09a", "TxToScriptData:"+label, call.Pos(), "script text is made of constants, integers and generated variable names")
 			} else {
 				c.bad("R09a", "TxToScriptData:"+label, call.Pos(), "text that is not provably made of constants and generated variable names is written into the script: a posting field (address, asset, amount) becomes Numscript source, so a crafted value can rewrite the program")
@@ -350,66 +473,88 @@ func runTxScriptRules(c *Ctx, fn *ssa.Function, nameF, valueF, postingsF *types.
 		nameWhy  string
 	}
 	var regs []*registration
-	for _, b := range fn.Blocks {
-		for _, ins := range b.Instrs {
-			mu, ok := ins.(*ssa.MapUpdate)
-			if !ok {
-				continue
-			}
-			u, ok := mu.Value.(*ssa.UnOp)
-			if !ok {
-				continue
-			}
-			cell, ok := u.X.(*ssa.Alloc)
-			if !ok || !isNamed(cell.Type(), pkgLedger, "variable") {
-				continue
-			}
-			r := &registration{mu: mu}
-			for _, l := range t.loops {
-				if l.header.Dominates(mu.Block()) {
-					r.loop = l
+	type regSite struct {
+		g    *ssa.Function
+		bind *callBind
+		at   *ssa.BasicBlock // block of fn that determines the loop
+	}
+	var sites []regSite
+	sites = append(sites, regSite{fn, nil, nil})
+	for _, lit := range fn.AnonFuncs {
+		for _, b := range fn.Blocks {
+			for _, ins := range b.Instrs {
+				if call, ok := ins.(*ssa.Call); ok && !call.Call.IsInvoke() && closureOf(call.Call.Value, 0) == lit {
+					sites = append(sites, regSite{lit, &callBind{callee: lit, args: call.Call.Args}, b})
 				}
 			}
-			var nameV, valV ssa.Value
-			for _, rf := range *cell.Referrers() {
-				fa, ok := rf.(*ssa.FieldAddr)
+		}
+	}
+	for _, site := range sites {
+		for _, b := range site.g.Blocks {
+			for _, ins := range b.Instrs {
+				mu, ok := ins.(*ssa.MapUpdate)
 				if !ok {
 					continue
 				}
-				for _, rr := range *fa.Referrers() {
-					if st, ok := rr.(*ssa.Store); ok && st.Addr == ssa.Value(fa) {
-						if sameField(fieldOfAddr(fa), nameF) {
-							nameV = st.Val
-						}
-						if sameField(fieldOfAddr(fa), valueF) {
-							valV = st.Val
+				u, ok := mu.Value.(*ssa.UnOp)
+				if !ok {
+					continue
+				}
+				cell, ok := u.X.(*ssa.Alloc)
+				if !ok || !isNamed(cell.Type(), pkgLedger, "variable") {
+					continue
+				}
+				r := &registration{mu: mu}
+				at := site.at
+				if at == nil {
+					at = mu.Block()
+				}
+				for _, l := range t.loops {
+					if l.header.Dominates(at) {
+						r.loop = l
+					}
+				}
+				var nameV, valV ssa.Value
+				for _, rf := range *cell.Referrers() {
+					fa, ok := rf.(*ssa.FieldAddr)
+					if !ok {
+						continue
+					}
+					for _, rr := range *fa.Referrers() {
+						if st, ok := rr.(*ssa.Store); ok && st.Addr == ssa.Value(fa) {
+							if sameField(fieldOfAddr(fa), nameF) {
+								nameV = st.Val
+							}
+							if sameField(fieldOfAddr(fa), valueF) {
+								valV = st.Val
+							}
 						}
 					}
 				}
-			}
-			if r.loop != nil {
-				if cn, ks, ok := t.keyCanon(mu.Key, r.loop, 0); ok {
-					r.keyParts, r.keyKinds, r.keyCanon = cn, ks, strings.Join(cn, "+")
-				}
-				if valV != nil {
-					if cn, _, ok := t.keyCanon(valV, r.loop, 0); ok {
-						r.valCanon = strings.Join(cn, "+")
+				if r.loop != nil {
+					if cn, ks, ok := t.keyCanonB(mu.Key, r.loop, 0, site.bind); ok {
+						r.keyParts, r.keyKinds, r.keyCanon = cn, ks, strings.Join(cn, "+")
+					}
+					if valV != nil {
+						if cn, _, ok := t.keyCanonB(valV, r.loop, 0, site.bind); ok {
+							r.valCanon = strings.Join(cn, "+")
+						}
 					}
 				}
-			}
-			// the name: literal prefix + one integer
-			if nameV != nil {
-				vs := strParts(nameV)
-				if len(vs) == 1 && len(vs[0]) == 2 && vs[0][0].isLit() && !vs[0][1].isLit() && !carriesText(stripStringConv(vs[0][1].dyn).Type()) {
-					r.prefix = vs[0][0].lit
-					r.counter, r.nameOK, r.nameWhy = uniqueCounter(stripStringConv(vs[0][1].dyn), mu)
+				// the name: literal prefix + one integer
+				if nameV != nil {
+					vs := strPartsBound(nameV, site.bind)
+					if len(vs) == 1 && len(vs[0]) == 2 && vs[0][0].isLit() && !vs[0][1].isLit() && !carriesText(stripStringConv(vs[0][1].dyn).Type()) {
+						r.prefix = vs[0][0].lit
+						r.counter, r.nameOK, r.nameWhy = t.uniqueCounter(stripStringConv(vs[0][1].dyn), mu)
+					} else {
+						r.nameWhy = "the name is not a constant prefix followed by one integer"
+					}
 				} else {
-					r.nameWhy = "the name is not a constant prefix followed by one integer"
+					r.nameWhy = "the variable is registered without a name"
 				}
-			} else {
-				r.nameWhy = "the variable is registered without a name"
+				regs = append(regs, r)
 			}
-			regs = append(regs, r)
 		}
 	}
 	for i, r := range regs {
@@ -487,7 +632,7 @@ func runTxScriptRules(c *Ctx, fn *ssa.Function, nameF, valueF, postingsF *types.
 				continue
 			}
 			for _, ins := range b.Instrs {
-				if call, ok := ins.(*ssa.Call); ok && isSendWrite(call) {
+				if call, ok := ins.(*ssa.Call); ok && t.isSendWrite(call) {
 					emit = l
 				}
 			}
@@ -503,7 +648,7 @@ func runTxScriptRules(c *Ctx, fn *ssa.Function, nameF, valueF, postingsF *types.
 	oblB.expect(kLoop, header.Instrs[0].Pos(), "every path through one iteration writes exactly one `send` header")
 	pr := &PathRule{
 		Step: func(pc *PathCtx, s uint64, ins ssa.Instruction) uint64 {
-			if call, ok := ins.(*ssa.Call); ok && isSendWrite(call) {
+			if call, ok := ins.(*ssa.Call); ok && t.isSendWrite(call) {
 				if s&3 < 3 {
 					s++
 				}
@@ -536,10 +681,14 @@ func runTxScriptRules(c *Ctx, fn *ssa.Function, nameF, valueF, postingsF *types.
 		}
 		for _, ins := range b.Instrs {
 			call, ok := ins.(*ssa.Call)
-			if !ok || !strings.HasPrefix(calleeFullName(call), "(*strings.Builder).Write") {
+			if !ok {
 				continue
 			}
-			for _, parts := range strParts(call.Call.Args[1]) {
+			wp, isWrite := t.writeParts(call)
+			if !isWrite {
+				continue
+			}
+			for _, parts := range wp {
 				for pi := 0; pi+1 < len(parts); pi++ {
 					if !parts[pi].isLit() || parts[pi+1].isLit() {
 						continue
@@ -577,7 +726,7 @@ func runTxScriptRules(c *Ctx, fn *ssa.Function, nameF, valueF, postingsF *types.
 						// the registration that fills this map under a key of the same shape
 						var reg *registration
 						for _, r := range regs {
-							if r.mu.Map == lk.X && r.keyCanon == got {
+							if t.mapRoot(r.mu.Map) == t.mapRoot(lk.X) && r.keyCanon == got {
 								reg = r
 							}
 						}
@@ -628,8 +777,20 @@ func startsWithDigitAfter(a, b string) bool {
 	return rest != "" && rest[0] >= '0' && rest[0] <= '9'
 }
 
-func writeLabel(arg ssa.Value) string {
-	vs := strParts(arg)
+func (t *txScript) isSendWrite(call *ssa.Call) bool {
+	vs, ok := t.writeParts(call)
+	if !ok || len(vs) == 0 {
+		return false
+	}
+	for _, parts := range vs {
+		if len(parts) == 0 || !parts[0].isLit() || !strings.HasPrefix(strings.TrimSpace(parts[0].lit), "send ") {
+			return false
+		}
+	}
+	return true
+}
+
+func partsLabel(vs [][]sPart) string {
 	if len(vs) == 0 {
 		return "?"
 	}
@@ -647,11 +808,11 @@ func writeLabel(arg ssa.Value) string {
 // uniqueCounter: the integer that makes a generated name unique. Accepted: len(M) of the map the variable is
 // registered into, or a loop-carried counter that is incremented in the block of the registration (or one it
 // dominates). Returns an identity for the counter.
-func uniqueCounter(v ssa.Value, mu *ssa.MapUpdate) (string, bool, string) {
+func (t *txScript) uniqueCounter(v ssa.Value, mu *ssa.MapUpdate) (string, bool, string) {
 	if call, ok := v.(*ssa.Call); ok {
 		if bi, ok := call.Call.Value.(*ssa.Builtin); ok && bi.Name() == "len" {
-			if call.Call.Args[0] == mu.Map {
-				return "len(" + mu.Map.Name() + ")", true, ""
+			if t.mapRoot(call.Call.Args[0]) == t.mapRoot(mu.Map) {
+				return "len(" + t.mapRoot(mu.Map).Name() + ")", true, ""
 			}
 			return "", false, "the name is numbered by the length of another collection than the map registered into"
 		}
